@@ -308,30 +308,15 @@ fn ref_verify(b: &[u8], keys: &[SignerSpec], now: u64, prev: Option<&[u8]>) -> (
     (RefVerdict::Valid { strict: (now - time).abs() < f }, Some(t))
 }
 
-/// Narrow classes of the recorded findings, computed from the input bytes only.
-/// `accepted-but-not-rfc-valid` inputs: which unauthenticated field differs from its mandated value
-fn deviation_class(b: &[u8], t: Option<&RefTsig>) -> &'static str {
-    if b.len() > 3 && b[3] & 0x40 != 0 {
-        return "C13.ZBitUnauthenticated";
-    }
-    if let Some(t) = t {
-        if t.class != 255 || t.ttl != 0 {
-            return "C13.TsigClassTtlUnchecked";
-        }
-    }
+/// The five classes recorded while this check was built (C13.TimeLtFudge, C13.CountOverflow,
+/// C13.DoubleTsig, C13.ZBitUnauthenticated, C13.TsigClassTtlUnchecked) were repaired in /repo
+/// (cdba272, 46a3964, 84e713d): the old behaviours are ordinary, unclassified violations now.
+fn deviation_class(_b: &[u8], _t: Option<&RefTsig>) -> &'static str {
     ""
 }
 
 fn panic_class(msg: &str) -> (&'static str, String) {
-    if msg.contains("attempt to add with overflow") {
-        ("C13.CountOverflow", "tsig:answers+authorities".into())
-    } else if msg.contains("attempt to subtract with overflow") {
-        ("C13.TimeLtFudge", "tsig:time-fudge".into())
-    } else if msg.contains("sig.is_none()") {
-        ("C13.DoubleTsig", "tsig:debug_assert-sig".into())
-    } else {
-        ("", msg.to_string())
-    }
+    ("", msg.to_string())
 }
 
 // ------------------------------------------------------------------------------------------
